@@ -722,7 +722,8 @@ def _step(node, model, orc, kind, epr, version, mid, bare, tag):
     if expect:
         if orc.check(handled, tag + ':fresh-message-id-not-acted-on'):
             model.apply(kind, epr, version, mid, own_messages=len(node.outbound()) - before_out)
-            orc.check(mid in node.nt._known_message_ids, tag + ':acted-on-id-not-remembered')
+            # remembered afterwards - unless the node's own outbound ids (sent while handling it) already pushed it out
+            orc.check((mid in node.nt._known_message_ids) or (mid not in model.remembered), tag + ':acted-on-id-not-remembered')
     else:
         orc.check(not handled, tag + ':remembered-message-id-acted-on-again')
         orc.check(node.table() == before_table, tag + ':duplicate-changed-table')
